@@ -29,7 +29,7 @@ m = {'version': 1,
      'engines': [{'name': 'symir+z3', 'path': 'vk/symir.py', 'serves_properties': [c['property_id'] for c in checks if 'symir' in c['engine']], 'kind_free_text': 'own path-forking symbolic interpreter over clang-14 LLVM IR of the real headers; z3 decides every branch and assertion'},
                  {'name': 'ir2c+cbmc', 'path': 'vk/ir2c.py', 'serves_properties': [c['property_id'] for c in checks if 'cbmc' in c['engine']], 'kind_free_text': 'own LLVM IR -> C translator, CBMC 6.11 bounded model checker (leaf kernels, cross-check of engine B)'}],
      'checks': checks,
-     'notes': 'All checks: ./check <ID> --tier quick|thorough. Exit 0 held / 1 VIOLATION (natively reproduced counterexample) / 2 machinery inconclusive (timeout, unsupported IR, vacuity, engine-native mismatch). Known findings: known-findings.txt.',
+     'notes': 'All checks: ./check <ID> --tier quick|thorough. Exit 0 held / 1 VIOLATION (natively reproduced counterexample) / 2 machinery inconclusive (timeout, unsupported IR, vacuity, engine-native mismatch). Thorough = quick bounds (must be exhausted) followed by deeper bounds within a time budget; a deeper bound that is not exhausted is reported as such in the evidence and not claimed. Known findings: known-findings.txt.',
      'not_applicable': na}
 json.dump(m, open(os.path.join(VERIF, 'MANIFEST.json'), 'w'), indent=1)
 print('MANIFEST.json: %d checks, %d not applicable' % (len(checks), len(na)))
